@@ -26,7 +26,9 @@ typedef long long ll;
 typedef gil::point_t pt;
 
 // ---- violation with lazily built detail (a systematic defect fires millions of times) ---------
-template <class F> static void V(const std::string& key, F detail) {
+static std::string g_size_suffix;   // "" for the exhaustive small windows, ".large" inside the large-shape cases
+template <class F> static void V(const std::string& key0, F detail) {
+    const std::string key = key0 + g_size_suffix;
     auto& p = vh::st().viol_printed;
     auto it = p.find(key);
     if (it == p.end() || it->second < 3) vh::viol(key, detail());
@@ -222,7 +224,7 @@ template <class Tag> static void check_circle(pt c, pd r, sink& sk, bool structu
     if (!run_counted(rast, sk, "circle", cls, what())) return;
     const size_t n = sk.cap;
     if (n == 0) { V("circle.count-zero." + cls, what); return; }
-    grid g(r + 2);
+    grid g(structural ? r + 2 : 0);   // the point grid is only needed for the set-level (structural) oracles
     const ll lo = r >= 1 ? (ll)(r - 1) * (r - 1) : 0, hi = (ll)(r + 1) * (r + 1);
     for (size_t i = 0; i < n; ++i) {
         pd x = sk.p[i].x - c.x, y = sk.p[i].y - c.y;
@@ -231,7 +233,7 @@ template <class Tag> static void check_circle(pt c, pd r, sink& sk, bool structu
         ll d2 = (ll)x * x + (ll)y * y;
         if (d2 < lo || d2 > hi)
             V("circle.dist." + cls, [&] { return vh::cat(what(), " point #", i, " ", ps(sk.p[i]), " is more than one pixel from the ideal circle (d^2=", d2, ")"); });
-        if (g.in(x, y)) g.at(x, y) = 1;
+        if (structural && g.in(x, y)) g.at(x, y) = 1;
     }
     if (!structural) return;
     // 8-fold symmetry of the set
@@ -307,7 +309,8 @@ template <class Tag> static void apply_circle_tight(pd r, sink& sk) {
 
 // ======================================= ellipse ==================================================
 // F(x,y) = b^2 x^2 + a^2 y^2 - a^2 b^2 : <0 inside, >0 outside
-static ll ellF(ll a, ll b, ll x, ll y) { return b * b * x * x + a * a * y * y - a * a * b * b; }
+typedef __int128 i128;
+static i128 ellF(i128 a, i128 b, i128 x, i128 y) { return b * b * x * x + a * a * y * y - a * a * b * b; }
 
 static std::vector<pt> check_ellipse_trajectory(unsigned a, unsigned b) {
     gil::midpoint_ellipse_rasterizer rast(gil::point<unsigned int>(a + 1, b + 1), gil::point<unsigned int>(a, b));
@@ -329,7 +332,7 @@ static std::vector<pt> check_ellipse_trajectory(unsigned a, unsigned b) {
             continue;
         }
         // within one pixel: the ideal curve crosses the closed 3x3 pixel neighbourhood of p
-        ll fmin = ellF(a, b, std::max<ll>(p.x - 1, 0), std::max<ll>(p.y - 1, 0)), fmax = ellF(a, b, p.x + 1, p.y + 1);
+        i128 fmin = ellF(a, b, std::max<ll>(p.x - 1, 0), std::max<ll>(p.y - 1, 0)), fmax = ellF(a, b, p.x + 1, p.y + 1);
         if (fmin > 0 || fmax < 0)
             V("ellipse.dist", [&] { return vh::cat(what(), " trajectory point #", i, " ", ps(p), " is more than one pixel from the ideal ellipse"); });
         if (i) {
@@ -338,7 +341,10 @@ static std::vector<pt> check_ellipse_trajectory(unsigned a, unsigned b) {
                 V("ellipse.connect", [&] { return vh::cat(what(), " trajectory points #", i - 1, " ", ps(q), " and #", i, " ", ps(p), " are not 8-connected"); });
         }
     }
-    // closed: the mirrored set separates the centre from the outside (4-connected flood fill of the complement)
+    // closed: the mirrored set separates the centre from the outside (4-connected flood fill of the complement).
+    // For large shapes the grid is not built: an 8-connected arc from the x axis to the y axis (checked above),
+    // mirrored, already is a closed 8-connected curve around the centre.
+    if (((uint64_t)2 * a + 5) * ((uint64_t)2 * b + 5) <= (uint64_t)1 << 24)
     {
         const pd GW = (pd)a + 2, GH = (pd)b + 2;             // grid [-GW,GW] x [-GH,GH]
         const pd SW = 2 * GW + 1, SH = 2 * GH + 1;
@@ -507,5 +513,108 @@ int main(int argc, char** argv) {
             vh::distinct(1);
         }
     }
+    // =========================== large shapes (every rasterizer) ===========================================
+    // Same oracles, exact 128-bit/64-bit integer arithmetic, point lists only (no full image except where noted).
+    // Circle and ellipse keys raised here carry the suffix ".large"; line keys do not (their class is the direction
+    // class, and the open finding F21b -- minor-axis distance slightly above one pixel -- is the same defect at any extent).
+    {
+        // ---- lines: extreme aspect ratios and near-diagonals at extents 1000..5000, all 8 sign/transposition variants
+        const pd NS[] = {1000, 2000, 4096, 5000};
+        for (pd n : NS) {
+            if (!vh::begin_case("line-large", vh::cat("extent=", n))) continue;
+            const pd minors[] = {0, 1, 2, 3, 7, n / 3, n / 2 - 1, n / 2, n / 2 + 1, n - 2, n - 1, n};
+            uint64_t cnt = 0;
+            for (pd m : minors) for (int sx = -1; sx <= 1; sx += 2) for (int sy = -1; sy <= 1; sy += 2) for (int tr = 0; tr < 2; ++tr) {
+                pd dx = sx * (tr ? m : n), dy = sy * (tr ? n : m);
+                pt s0{17 - n / 2, -23 + n / 3};
+                check_line(s0, pt{s0.x + dx, s0.y + dy}, sk); ++cnt;
+            }
+            vh::distinct(cnt);
+            vh::obs("large.line");
+        }
+        // ---- seeded directions up to 5000 in both coordinates
+        const int LB = T ? 30 : 3;
+        for (int b = 0; b < LB; ++b) {
+            if (!vh::begin_case("line-large", vh::cat("seeded-batch=", b))) continue;
+            vh::rng rg = vh::case_rng();
+            for (int i = 0; i < 100; ++i) {
+                pt s0{(pd)rg.range(-5000, 5000), (pd)rg.range(-5000, 5000)};
+                pt e0{(pd)rg.range(-5000, 5000), (pd)rg.range(-5000, 5000)};
+                if (i % 4 == 0) e0.y = s0.y + rg.range(-3, 3);          // nearly horizontal
+                if (i % 4 == 1) e0.x = s0.x + rg.range(-3, 3);          // nearly vertical
+                check_line(s0, e0, sk);
+            }
+            vh::distinct(100);
+        }
+        // ---- apply_rasterizer(line) on a view of exactly the bounding box inside an arena: thin and big boxes
+        {
+            const pd dirs[][2] = {{5000, 3}, {3, 5000}, {-2000, 3}, {1, -4096}, {1000, 700}, {-700, -1000}, {1200, 1200}};
+            for (auto& d : dirs) {
+                if (!vh::begin_case("apply-arena.line-large", vh::cat("d=", d[0], ",", d[1]))) continue;
+                vh::rng rg = vh::case_rng();
+                apply_line_arena<gil::gray8_pixel_t>(d[0], d[1], sk, rg, "gray8");
+                vh::distinct(1);
+            }
+        }
+        g_size_suffix = ".large";
+        // ---- circles, both algorithms: radii up to several thousand; set-level oracles where the grid is affordable
+        {
+            std::vector<pd> radii = {513, 600, 1000, 1500, 2048, 3000, 4097, 5000};
+            if (T) { radii.push_back(2500); radii.push_back(10000); radii.push_back(20000); }
+            const int extra = T ? 40 : 4;
+            vh::rng rr(vh::mix(vh::seed(), 0xC1BC1E));
+            for (int i = 0; i < extra; ++i) radii.push_back((pd)rr.range(513, 6000));
+            const pd structural_max = T ? 2500 : 1500;
+            for (pd r : radii) for (int which = 0; which < 2; ++which) {
+                if (!vh::begin_case(which ? "circle-large.midpoint" : "circle-large.trig", vh::cat("r=", r))) continue;
+                pt centres[2] = {{0, 0}, {r + 3, -r - 11}};
+                for (int k = 0; k < 2; ++k) {
+                    bool st = k == 0 && r <= structural_max;
+                    if (which) check_circle<mid_tag>(centres[k], r, sk, st); else check_circle<trig_tag>(centres[k], r, sk, st);
+                }
+                vh::distinct(1);
+                vh::obs("large.circle");
+            }
+            const pd apply_r[] = {700, T ? (pd)2000 : (pd)900};
+            for (pd r : apply_r) for (int which = 0; which < 2; ++which) {
+                if (!vh::begin_case(which ? "apply-arena.circle-large.midpoint" : "apply-arena.circle-large.trig", vh::cat("r=", r))) continue;
+                vh::rng rg = vh::case_rng();
+                if (which) apply_circle_arena<mid_tag, gil::gray8_pixel_t>(r, sk, rg, "gray8"); else apply_circle_arena<trig_tag, gil::gray8_pixel_t>(r, sk, rg, "gray8");
+                vh::distinct(1);
+            }
+        }
+        // ---- ellipses: semi-axes up to several thousand incl. extreme aspect ratios; trajectory against the exact
+        //      128-bit implicit-equation band; each pair is its own case (an overflow inside the rasterizer is fatal)
+        {
+            std::vector<std::pair<unsigned, unsigned>> ab = {{700, 900}, {900, 700}, {1500, 1500}, {2000, 300}, {300, 2000}, {2000, 3}, {3, 2000},
+                {5000, 1}, {1, 5000}, {4000, 4000}, {5000, 4999}, {1024, 1024}, {2047, 2049}, {129, 4000}, {3333, 130}};
+            if (T) { ab.push_back({20000, 20000}); ab.push_back({30000, 7}); ab.push_back({7, 30000}); ab.push_back({12345, 6789}); }
+            const int extra = T ? 100 : 10;
+            vh::rng rr(vh::mix(vh::seed(), 0xE111B5E));
+            for (int i = 0; i < extra; ++i) ab.push_back({(unsigned)rr.range(129, 5000), (unsigned)rr.range(i % 3 == 0 ? 1 : 129, 5000)});
+            for (auto& p : ab) {
+                if (!vh::begin_case("ellipse-large", vh::cat("a=", p.first, ",b=", p.second))) continue;
+                check_ellipse_trajectory(p.first, p.second);
+                vh::distinct(1);
+                vh::obs("large.ellipse");
+            }
+            // drawn pixels == 4-fold mirror of the trajectory, nothing outside: bounding-box view and a clipped view
+            struct { unsigned a, b; int w, h; unsigned cx, cy; const char* cls; } draws[] = {
+                {700, 800, 1401, 1601, 701, 801, "bbox.gray8"},
+                {2000, 300, 500, 400, 1900, 350, "clipped.gray8"},
+                {3, 2000, 7, 4001, 4, 2001, "bbox.gray8"},
+                {T ? 1999u : 900u, T ? 1999u : 650u, T ? 3999 : 1801, T ? 3999 : 1301, T ? 2000u : 901u, T ? 2000u : 651u, "bbox.gray8"},
+            };
+            for (auto& d : draws) {
+                if (!vh::begin_case("apply-arena.ellipse-large", vh::cat("a=", d.a, ",b=", d.b, ",view=", d.w, "x", d.h))) continue;
+                vh::rng rg = vh::case_rng();
+                gil::midpoint_ellipse_rasterizer rast(gil::point<unsigned int>(d.cx, d.cy), gil::point<unsigned int>(d.a, d.b));
+                std::vector<pt> t = rast.obtain_trajectory();
+                apply_ellipse_arena<gil::gray8_pixel_t>(d.a, d.b, d.w, d.h, d.cx, d.cy, t, rg, d.cls);
+                vh::distinct(1);
+            }
+        }
+    }
+    g_size_suffix.clear();
     return vh::finish();
 }
